@@ -228,6 +228,10 @@ pub fn hand_seeds() -> Vec<Seed> {
         // tag right after the first loop meets: seeded change C06-12 left the parser's context stack
         // one entry too deep after every `elif`)
         "{% for x in a %}{% if x %}1{% elif b %}2{% else %}3{% endif %}{% endfor %}z{% for y in a %}{{ y }}{% endfor %}",
+        // loops and a comprehension over string LITERALS with multi-byte characters (render_str runs
+        // them with an empty context; seeded change C06-14 counted the characters left in bytes and
+        // the loop never ended)
+        "{% for c in \"é日😀\" %}{{ c }}{% endfor %}{{ [c for c in \"aé\"] }}{% for c in \"\" %}{% else %}e{% endfor %}",
     ];
     let multi: &[&[(&str, &str)]] = &[
         &[("p", "{% block b %}P{% endblock %}"), ("c", "{% extends \"p\" %}{% block b %}{{ super() }}{% endblock %}")],
